@@ -1,10 +1,11 @@
 """C16 — a failing worker fails the whole search; no shared memory is left behind.
 
 Leg B runs the REAL `scan` / `scan_subsets` of the worktree with faults injected by monkey-patching
-(`pv.faults`, installed in every process incl. loky workers through sitecustomize) and compares
+(`pv.faults` + `pv.c16_hooks`, installed in every process incl. loky workers through a chained sitecustomize) and compares
 outcome, trace of program points, shared-memory ledger and the caller's arrays with the Lean
 control-flow model (Model/C16.lean).  Each clause of the property is evaluated on the real outputs."""
 import ast
+import gc
 import json
 import os
 import time
@@ -15,7 +16,10 @@ ID = "C16"
 RULE = ("real scan/scan_subsets runs under injected faults: every single fault position (phase x tile x job x rotation) of "
         "small sequential configurations, random single/repeated/dead positions over scores x analyzers x split layouts x "
         "job schedules incl. real multi-process (loky) outer/inner pools with injected delays to vary the interleaving, an "
-        "ambient-exception stream and malformed n_jobs=0. distinct = distinct (mode, score, analyzer, dims, tiles, rotations, "
+        "ambient-exception stream and malformed n_jobs=0; program points include every single to_sharedarr (segment cannot be "
+        "created) and the user's template/target filters; template splits, non-shared user analyzers, schedules with more jobs "
+        "than items; caller's arrays in every memory layout / dtype / np.memmap / Density with the whole underlying buffer "
+        "(and file) watched; segments still mapped by the calling process after the call. distinct = distinct (mode, score, analyzer, dims, tiles, rotations, "
         "schedule, fault set, ambient) tuples; fault-free single-tile single-job runs are trivial and not counted")
 ASSUMPTIONS = [
     "faults are ordinary Exception subclasses raised at instrumented program points; BaseException, hard worker death "
@@ -24,19 +28,28 @@ ASSUMPTIONS = [
     "logged); only those names are looked up in /dev/shm afterwards, so concurrent users of /dev/shm do not interfere",
     "theorems are stated for an empty ambient exception (the model exposes the sys.exc_info()-on-entry behaviour)",
     "the interleaving inside a pool is modelled at task granularity (completion order + prefix progress of tasks in flight)",
+    "faults are raised at the ENTRY of instrumented program points (subset_by_slice, to_backend, user filters, setup function, "
+    "every to_sharedarr, analyzer construction / call / _postprocess / __iter__ / merge, scoring function, rigid_transform); a "
+    "failure in the middle of other library calls (e.g. inside an FFT of the scoring loop) is not injected",
+    "StopIteration and the individual classes of the built-in exception hierarchy are raised on sequential paths only (a pool "
+    "pickles and re-raises exceptions; joblib gives some classes, e.g. TimeoutError, a meaning of its own)",
+    "a segment counts as still held when the calling process has it mapped after the call with the result alive, the exception "
+    "dropped and garbage collected (/proc/self/maps)",
 ]
 TRUSTED = ["C16: joblib/loky scheduling, multiprocessing.managers.SharedMemoryManager and the OS are exercised, not modelled; "
-           "pv.faults monkey-patches (program points) are part of the harness"]
+           "pv.faults / pv.c16_hooks monkey-patches (program points), the user-level filter and analyzer classes of pv.c16_hooks "
+           "and the chained sitecustomize that installs them in worker processes are part of the harness"]
 
-PHASES = ["subset", "toBackend", "setupPre", "setupPost", "analyzerInit", "scoreEntry", "rotate", "callback",
-          "postprocess", "merge", "outerMerge"]
+PHASES = ["subset", "toBackend", "filter", "setupPre", "setupPost", "analyzerInit", "scoreEntry", "rotate", "callback",
+          "postprocess", "merge", "outerMerge", "alloc", "collect"]
 # segments allocated through the handler: setup function per score, analyzer construction / _postprocess.
 # Extracted from the source on every run and compared (obligation) with these constants, which the model is fed with.
 SETUP_SEGS = {"CC": 4, "LCC": 4, "CORR": 4, "CAM": 4, "FLCSphericalMask": 5, "FLC": 4, "MCC": 5}
-ANALYZER_SEGS = {"max": (2, 2), "peak": (0, 0), "none": (0, 0)}
+ANALYZER_SEGS = {"max": (2, 2), "peak": (0, 0), "none": (0, 0), "nonshared": (2, 2)}
 KNOWN_LEAK_KEY = "leak:scan_subsets:outer>1:sibling-tile-in-flight-killed"
 
 _F = None
+_H = None
 _REF = {}
 _SAMPLED = set()
 
@@ -51,8 +64,18 @@ def _setup():
     os.makedirs(d, exist_ok=True)
     os.environ["PYTME_VERIF"] = "1"
     os.environ["PYTME_VERIF_FAULTS"] = d
+    # every process started from now on (loky workers) runs the harness' sitecustomize and then the C16 hooks
+    import pv.c16_hooks as H
+    site = os.path.join(d, "site")
+    os.makedirs(site, exist_ok=True)
+    with open(os.path.join(site, "sitecustomize.py"), "w") as f:
+        f.write(H.SITECUSTOMIZE.format(orig=os.path.join(env.SITE, "sitecustomize.py")))
+    os.environ["PYTHONPATH"] = os.pathsep.join([site] + [x for x in os.environ.get("PYTHONPATH", "").split(os.pathsep) if x and x != site])
     import pv.faults as F
     F.install()
+    H.install()
+    global _H
+    _H = H
     _F = F
     return F
 
@@ -123,6 +146,75 @@ def _rotations(nrot, dim, seed):
     return out
 
 
+LAYOUTS = ["c", "f", "rev", "strided", "offset", "ro", "f64", "i16", "memmap", "memmap_c", "density", "density_mm", "mixed"]
+_MIX = ["f", "strided", "ro", "rev", "offset", "f64", "memmap", "density"]
+
+
+def _hold(a, kind, name):
+    """The values of `a` held the way `kind` says.  Returns (object handed to the API, snapshot function of everything
+    the caller owns behind it: the whole base buffer, the file of a memory map)"""
+    def snap_of(*bufs, files=()):
+        def snap():
+            out = [(b.shape, str(b.dtype), np.ascontiguousarray(b).tobytes()) for b in bufs]
+            for fn in files:
+                with open(fn, "rb") as f:
+                    out.append(f.read())
+            return out
+        return snap
+    nd = a.ndim
+    if kind == "f":
+        v = np.asfortranarray(a)
+        return v, snap_of(v)
+    if kind == "rev":
+        base = np.ascontiguousarray(a[(slice(None, None, -1),) * nd])
+        return base[(slice(None, None, -1),) * nd], snap_of(base)
+    if kind == "strided":
+        base = np.full(tuple(2 * x for x in a.shape), 7, a.dtype)
+        v = base[(slice(None, None, 2),) * nd]
+        v[...] = a
+        return v, snap_of(base)
+    if kind == "offset":
+        base = np.full(tuple(x + 3 for x in a.shape), 5, a.dtype)
+        v = base[tuple(slice(1, 1 + x) for x in a.shape)]
+        v[...] = a
+        return v, snap_of(base)
+    if kind == "ro":
+        v = a.copy()
+        v.flags.writeable = False
+        return v, snap_of(v)
+    if kind == "f64":
+        v = a.astype(np.float64)
+        return v, snap_of(v)
+    if kind == "i16":
+        v = np.rint(a * 50).astype(np.int16)
+        return v, snap_of(v)
+    if kind in ("memmap", "memmap_c"):
+        from pv import env
+        fn = os.path.join(env.scratch(), "c16", f"mm_{name}.bin")     # the same path is rewritten by every scenario
+        w = np.memmap(fn, mode="w+", dtype=a.dtype, shape=a.shape)
+        w[...] = a
+        w.flush()
+        del w
+        v = np.memmap(fn, mode="r+" if kind == "memmap" else "c", dtype=a.dtype, shape=a.shape)
+        return v, snap_of(v, files=(fn,))
+    if kind == "density":
+        from tme.density import Density
+        v = Density(a.copy())
+        data = v.data
+        return v, snap_of(data)
+    if kind == "density_mm":
+        # the way the command line tool holds a large tomogram: a Density whose data is a memory map of the MRC file
+        from pv import env
+        from tme.density import Density
+        fn = os.path.join(env.scratch(), "c16", f"dens_{name}.mrc")     # rewritten by every scenario
+        Density(a.copy(), sampling_rate=1.0).to_file(fn)
+        v = Density.from_file(fn, use_memmap=True)
+        data = v.data
+        return v, snap_of(data, files=(fn,))
+    v = a.copy()
+    return v, snap_of(v)
+
+
 def _data(sc):
     dim, n, m = sc["dim"], sc["n"], sc["m"]
     rng = np.random.default_rng([sc["dseed"], dim, n, m])
@@ -139,17 +231,41 @@ def _data(sc):
     return target, template, tmask, target_mask
 
 
+def _held(sc):
+    """the four arrays as the scenario's `layout` holds them: ([objects for the API], {name: snapshot function})"""
+    arrs = _data(sc)
+    names = ["target", "template", "template_mask", "target_mask"]
+    layout = sc.get("layout", "c")
+    objs, snaps = [], {}
+    for i, (nm, a) in enumerate(zip(names, arrs)):
+        kind = _MIX[(sc["dseed"] + 3 * i) % len(_MIX)] if layout == "mixed" else layout
+        if kind == "i16" and nm != "target":
+            kind = "c"          # integer masks / templates are another search; the integer target is the case of interest
+        if kind == "density_mm" and nm != "target":
+            kind = "density"
+        o, sn = _hold(a, kind, nm)
+        objs.append(o)
+        snaps[nm] = sn
+    return objs, snaps
+
+
 def _ntiles(sc):
     from tme.matching_utils import split_shape
     shape = (sc["n"],) * sc["dim"]
-    return len(split_shape(shape, splits={int(k): int(v) for k, v in sc["splits"].items()}))
+    nt = len(split_shape(shape, splits={int(k): int(v) for k, v in sc["splits"].items()}))
+    ts = sc.get("tsplits") or {}
+    return nt * len(split_shape((sc["m"],) * sc["dim"], splits={int(k): int(v) for k, v in ts.items()}))
 
 
-def cfg_of(sc, copies=True, shared=True):
-    cb, post = ANALYZER_SEGS[sc["analyzer"]]
+def cfg_of(sc, copies=True):
+    an = sc["analyzer"]
+    cb, post = ANALYZER_SEGS[an]
+    # scan_subsets does not hand jobs_per_callback_class on to scan: the default (8) applies there
+    jpc = int(sc.get("jpc", 8)) if sc["mode"] == "scan" else 8
     return {"ntiles": 1 if sc["mode"] == "scan" else _ntiles(sc), "nrot": sc["nrot"], "outer": sc["sched"][0],
-            "inner": sc["sched"][1], "hasCb": sc["analyzer"] != "none", "shared": shared, "jpc": 8,
-            "setupSegs": SETUP_SEGS[sc["score"]], "cbSegs": cb, "postSegs": post, "copies": copies}
+            "inner": sc["sched"][1], "hasCb": an != "none", "shared": an != "nonshared", "jpc": jpc,
+            "setupSegs": SETUP_SEGS[sc["score"]], "cbSegs": cb, "postSegs": post, "copies": copies,
+            "tfilter": bool(sc.get("tfilter")), "gfilter": bool(sc.get("gfilter"))}
 
 
 def _exc_info(e):
@@ -158,16 +274,68 @@ def _exc_info(e):
     while type(cur) is Exception and len(cur.args) == 1 and isinstance(cur.args[0], BaseException):
         wraps += 1
         cur = cur.args[0]
+    # PEP 479: a StopIteration raised inside a generator body (joblib's sequential path, the generator expression
+    # scan_subsets hands to Parallel) surfaces as RuntimeError with the StopIteration as its cause
+    if isinstance(cur, RuntimeError) and isinstance(cur.__cause__, StopIteration):
+        cur = cur.__cause__
     return type(e).__name__, wraps, cur
 
 
 def _root_pos(root):
-    s = str(root.args[0]) if getattr(root, "args", None) else str(root)
+    s = getattr(root, "pvpos", None)
+    if s is None:
+        s = str(root.args[0]) if getattr(root, "args", None) else str(root)
     s = s.strip("'\"")
     if s.startswith("pvfault:"):
         _, ph, t, i = s.split(":")
         return [ph, int(t), int(i)]
     return None
+
+
+class _Abort(Exception):
+    """the check process is not safe to continue (a result aliases released memory: touching it can crash the process)"""
+
+
+def _result_backing(result):
+    """For every array of a returned result: who owns its memory?  Walks `.base` WITHOUT reading any element (a view into
+    a segment that has been unmapped would crash the process).  Returns the arrays that live in somebody else's buffer
+    (a memoryview / mmap, i.e. a shared-memory block) instead of owning their data or being a file-backed np.memmap."""
+    import mmap
+    bad = []
+    if not isinstance(result, (tuple, list)):
+        return bad
+    for i, a in enumerate(result):
+        b, hops = a, 0
+        while isinstance(b, np.ndarray) and not isinstance(b, np.memmap) and b.base is not None and hops < 16:
+            b, hops = b.base, hops + 1
+        if isinstance(b, memoryview):
+            try:
+                owner = type(b.obj).__name__
+            except ValueError:
+                owner = "released"
+            bad.append({"item": i, "buffer": f"memoryview({owner})"})
+        elif isinstance(b, mmap.mmap):
+            bad.append({"item": i, "buffer": "mmap"})
+    return bad
+
+
+def _mapped(names):
+    """segments of the call that this process still has mapped (their memory is held although the name is gone)"""
+    if not names:
+        return []
+    out = set()
+    try:
+        with open("/proc/self/maps") as f:
+            for line in f:
+                i = line.find("/psm_")
+                if i < 0:
+                    continue
+                nm = line[i + 1:].split()[0]
+                if nm in names:
+                    out.add(nm)
+    except OSError:
+        return []
+    return sorted(out)
 
 
 def run_real(sc):
@@ -178,28 +346,41 @@ def run_real(sc):
     import tme.matching_exhaustive as me
     from tme.analyzer import MaxScoreOverRotations, PeakCallerMaximumFilter
 
-    target, template, tmask, target_mask = _data(sc)
+    (target, template, tmask, target_mask), snaps = _held(sc)
     rots = _rotations(sc["nrot"], sc["dim"], sc["dseed"])
-    keep = [a.copy() for a in (target, template, tmask, target_mask, rots)]
+    snaps["rotations"] = (lambda r=rots: [(r.shape, str(r.dtype), r.tobytes())])
+    keep = {k: fn() for k, fn in snaps.items()}
     rotkeys = {np.ascontiguousarray(r).tobytes().hex(): i for i, r in enumerate(rots)}
     plan = {"faults": [{"phase": p[0], "tile": p[1], "idx": p[2]} for p in sc["faults"]],
             "delays": [{"phase": p[0], "tile": p[1], "idx": p[2], "seconds": p[3]} for p in sc.get("delays", [])],
             "rotkeys": rotkeys, "nrot": int(sc["nrot"]), "exc": sc.get("exc", "PvFault"), "active": True}
     F.begin(plan)
-    md = MatchingData(target, template, template_mask=tmask, target_mask=target_mask, rotations=rots)
+    md = MatchingData(target, template, template_mask=tmask, target_mask=target_mask, rotations=rots,
+                      invert_target=bool(sc.get("invert")))
+    if sc.get("tfilter"):
+        md.template_filter = _H.make_filter(0)
+    if sc.get("gfilter"):
+        md.target_filter = _H.make_filter(1)
     setup, score = MATCHING_EXHAUSTIVE_REGISTER[sc["score"]]
-    cbc = {"max": MaxScoreOverRotations, "peak": PeakCallerMaximumFilter, "none": None}[sc["analyzer"]]
-    cba = {"max": {"score_threshold": 0.0}, "peak": {"number_of_peaks": 5, "min_distance": 2}, "none": {}}[sc["analyzer"]]
+    cbc = {"max": MaxScoreOverRotations, "peak": PeakCallerMaximumFilter, "none": None,
+           "nonshared": _H.nonshared_class()}[sc["analyzer"]]
+    cba = {"max": {"score_threshold": 0.0}, "peak": {"number_of_peaks": 5, "min_distance": 2}, "none": {},
+           "nonshared": {"score_threshold": 0.0}}[sc["analyzer"]]
     if sc["analyzer"] == "max" and sc.get("memmap"):
         cba = dict(cba, use_memmap=True)        # the low-memory mode of the score-map analyzer (match_template.py --use_memmap)
     splits = {int(k): int(v) for k, v in sc["splits"].items()}
+    tsplits = {int(k): int(v) for k, v in (sc.get("tsplits") or {}).items()}
+    ptf = bool(sc.get("pad_template_filter", True))
 
     def call():
         if sc["mode"] == "scan":
+            kw = {"jobs_per_callback_class": int(sc["jpc"])} if "jpc" in sc else {}
             return me.scan(matching_data=md, matching_setup=setup, matching_score=score, n_jobs=sc["sched"][1],
-                           callback_class=cbc, callback_class_args=cba, pad_fourier=sc.get("pad_fourier", True))
+                           callback_class=cbc, callback_class_args=cba, pad_fourier=sc.get("pad_fourier", True),
+                           pad_template_filter=ptf, **kw)
         return scan_subsets(matching_data=md, matching_score=score, matching_setup=setup, callback_class=cbc,
                             callback_class_args=cba, job_schedule=tuple(sc["sched"]), target_splits=splits,
+                            template_splits=tsplits, pad_template_filter=ptf,
                             pad_target_edges=sc.get("pad_edges", True), pad_fourier=sc.get("pad_fourier", True))
 
     t0 = time.time()
@@ -219,6 +400,7 @@ def run_real(sc):
         obs["outcome"] = "raised"
         obs["exc"] = {"class": name, "wraps": wraps, "root_class": type(root).__name__, "root_pos": _root_pos(root),
                       "text": repr(e)[:160]}
+        del e, root
     obs["wall"] = round(time.time() - t0, 3)
     # ledger
     segs = []
@@ -236,14 +418,24 @@ def run_real(sc):
             os.unlink("/dev/shm/" + s["name"])
         except OSError:
             pass
+    # segments of the call still mapped here, with the result alive and the exception (its traceback's frames) dropped
+    names = {s["name"] for s in segs}
+    still = _mapped(names)
+    for gen in (0, 1, 2):       # the frames of a dropped exception's traceback are young garbage: cheapest collection first
+        if not still:
+            break
+        gc.collect(gen)
+        still = _mapped(names)
+    by_name = {s["name"]: s["tile"] for s in segs}
+    obs["mapped"] = [by_name[n] for n in still]
     ev = F.events()
     obs["events"] = [[e["phase"], e["tile"], e["idx"]] for e in ev]
     obs["fired"] = [[e["phase"], e["tile"], e["idx"]] for e in ev if e.get("fired")]
-    # caller's arrays
-    names = ["target", "template", "template_mask", "target_mask", "rotations"]
-    obs["inputs_changed"] = [n for n, a, b in zip(names, (target, template, tmask, target_mask, rots), keep)
-                             if a.shape != b.shape or a.tobytes() != b.tobytes()]
-    obs["result"] = _canon_result(sc, result)
+    obs["worker_allocs"] = sum(1 for e in ev if e["phase"] == "alloc" and e.get("pid") != os.getpid())
+    # caller's arrays: everything behind them (base buffers, files)
+    obs["inputs_changed"] = [k for k, fn in snaps.items() if fn() != keep[k]]
+    obs["result_backing"] = _result_backing(result)
+    obs["result"] = {"kind": "unreadable", "err": "lives in a shared-memory block"} if obs["result_backing"] else _canon_result(sc, result)
     F.begin({"faults": [], "delays": [], "rotkeys": {}, "nrot": 0, "active": False})
     return obs
 
@@ -259,7 +451,7 @@ def _canon_result(sc, result):
     if result is None:
         return None
     try:
-        if sc["analyzer"] == "max":
+        if sc["analyzer"] in ("max", "nonshared"):
             s = np.asarray(result[0], dtype=np.float64)
             return {"kind": "max", "shape": list(s.shape), "scores": np.round(s, 4).reshape(-1).tolist()}
         if sc["analyzer"] == "peak":
@@ -285,7 +477,9 @@ def _same_result(a, b):
 def reference(sc):
     """fault-free, sequential run of the same search (same data, splits, rotations, analyzer)"""
     key = json.dumps([sc[k] for k in ("mode", "score", "analyzer", "dim", "n", "m", "dseed", "nrot")] +
-                     [sorted(sc["splits"].items()), sc.get("pad_edges", True), sc.get("pad_fourier", True), bool(sc.get("memmap"))])
+                     [sorted(sc["splits"].items()), sc.get("pad_edges", True), sc.get("pad_fourier", True), bool(sc.get("memmap")),
+                      sorted((sc.get("tsplits") or {}).items()), bool(sc.get("tfilter")), bool(sc.get("gfilter")),
+                      sc.get("pad_template_filter", True), sc.get("layout", "c"), bool(sc.get("invert")), sc.get("jpc")])
     if key not in _REF:
         r = dict(sc, faults=[], delays=[], sched=[1, 1], ambient=False)
         _REF[key] = run_real(r)
@@ -316,6 +510,14 @@ def check(ctx, sc, tag="main"):
     inp = {k: sc[k] for k in sc}
     seq = _sequential(sc)
     outer = sc["sched"][0] if sc["mode"] == "subsets" else 1
+    if outer > 1 and obs["outcome"] == "returned" and obs["created"] and not obs["worker_allocs"]:
+        # infrastructure, not a verdict: the chained sitecustomize did not reach the worker processes
+        raise RuntimeError("C16 hooks are not installed in the loky workers (no allocation point logged by a worker)")
+    ctx.count(f"{tag}:layout={sc.get('layout', 'c')}")
+    if sc.get("tfilter") or sc.get("gfilter"):
+        ctx.count(f"{tag}:filters={'T' if sc.get('tfilter') else ''}{'G' if sc.get('gfilter') else ''}")
+    if sc.get("tsplits"):
+        ctx.count(f"{tag}:template-splits")
     ctx.count(f"{tag}:mode={sc['mode']}")
     ctx.count(f"{tag}:sched={'seq' if seq else 'x'.join(map(str, sc['sched']))}")
     ctx.count(f"{tag}:score={sc['score']}")
@@ -375,6 +577,13 @@ def check(ctx, sc, tag="main"):
     if obs["fired"]:
         ctx.spec("a fault that fired makes the call raise", inp, obs["outcome"] == "raised",
                  {"fired": obs["fired"], "outcome": obs["outcome"]}, key="swallowed-fault")
+    if obs["outcome"] == "returned":
+        # results are copied out of shared memory before the manager exits: what the caller gets owns its memory (or is a
+        # file-backed memory map); evaluated without touching the data
+        ctx.spec("a returned result does not live in a shared-memory block of the call", inp, not obs["result_backing"],
+                 {"arrays": obs["result_backing"], "analyzer": sc["analyzer"]}, key="partial-result:result-in-shared-memory")
+        if obs["result_backing"]:
+            raise _Abort("a returned result aliases a shared-memory block that has been released")
     if obs["outcome"] == "returned" and not sc.get("ambient"):
         ref = reference(sc)
         ok = ref["outcome"] == "returned" and _same_result(obs["result"], ref["result"])
@@ -400,6 +609,11 @@ def check(ctx, sc, tag="main"):
              {"leaked": obs["leaked"], "created": obs["created"], "outcome": obs["outcome"], "fired": obs["fired"]}, key=key)
     ctx.spec("caller's arrays unchanged", inp, not obs["inputs_changed"], obs["inputs_changed"],
              key="inputs:" + ",".join(obs["inputs_changed"]))
+    # released = not held any more: with the result in the caller's hands (and the exception dropped) the calling
+    # process has none of the call's segments mapped (results are copied out before the manager exits)
+    ctx.spec("no segment of the call is still mapped by the caller", inp, not obs["mapped"],
+             {"mapped segments (tile)": obs["mapped"], "outcome": obs["outcome"], "analyzer": sc["analyzer"]},
+             key=f"mapped:{obs['outcome']}")
     sk = (tag, obs["outcome"], seq, bool(obs["leaked"]))
     if sk not in _SAMPLED and len(_SAMPLED) < 8:
         _SAMPLED.add(sk)
@@ -411,7 +625,9 @@ def check(ctx, sc, tag="main"):
     trivial = not sc["faults"] and seq and cfg_of(sc)["ntiles"] == 1 and not sc.get("ambient")
     if not trivial:
         ctx.distinct([sc["mode"], sc["score"], sc["analyzer"], sc["dim"], sorted(sc["splits"].items()), sc["nrot"], sc["sched"],
-                      sorted(map(tuple, sc["faults"])), bool(sc.get("ambient")), sc.get("exc", "PvFault")])
+                      sorted(map(tuple, sc["faults"])), bool(sc.get("ambient")), sc.get("exc", "PvFault"),
+                      sorted((sc.get("tsplits") or {}).items()), bool(sc.get("tfilter")), bool(sc.get("gfilter")),
+                      sc.get("layout", "c"), bool(sc.get("invert")), sc.get("jpc")])
     return obs, model
 
 
@@ -426,7 +642,17 @@ def _brief(r):
 SCORES = list(SETUP_SEGS)
 ANALYZERS = ["max", "peak", "none"]
 EXCS = ["PvFault", "ValueError", "MemoryError", "KeyError", "RuntimeError", "OSError", "PvSilentFault", "AttributeError", "TypeError",
-        "IndexError", "ZeroDivisionError", "NotImplementedError", "AssertionError", "AttributeError"]
+        "IndexError", "ZeroDivisionError", "NotImplementedError", "AssertionError", "AttributeError",
+        # pv.c16_hooks: no arguments at all, falsy exception objects, warnings raised as errors
+        "PvNoArgs", "PvFalsy", "PvWarning"]
+# only where no pool pickles / re-raises the exception: StopIteration (PEP 479 turns it into RuntimeError + __cause__ inside
+# generator bodies) and the rest of the built-in hierarchy (joblib gives some of them, e.g. TimeoutError, a meaning of its own)
+EXCS_SEQ = ["StopIteration"]
+
+
+def _rare_kinds():
+    _setup()
+    return list(_H.BUILTIN_KINDS)
 
 
 def _base(rng, parallel=False):
@@ -441,10 +667,27 @@ def _base(rng, parallel=False):
                 splits[str(ax)] = int(rng.integers(2, 4)) if ax == 0 else 2
         if len(splits) == 3:
             splits.pop("2")
-    return {"mode": mode, "score": str(rng.choice(SCORES)), "analyzer": str(rng.choice(ANALYZERS, p=[0.6, 0.25, 0.15])),
-            "dim": dim, "n": n, "m": m, "dseed": int(rng.integers(0, 1000)), "nrot": int(rng.integers(1, 6)),
-            "splits": splits, "sched": [1, 1], "faults": [], "delays": [], "exc": str(rng.choice(EXCS)),
-            "pad_edges": bool(rng.random() < 0.7), "pad_fourier": bool(rng.random() < 0.7), "memmap": bool(rng.random() < 0.3)}
+    sc = {"mode": mode, "score": str(rng.choice(SCORES)), "analyzer": str(rng.choice(ANALYZERS, p=[0.6, 0.25, 0.15])),
+          "dim": dim, "n": n, "m": m, "dseed": int(rng.integers(0, 1000)), "nrot": int(rng.integers(1, 6)),
+          "splits": splits, "sched": [1, 1], "faults": [], "delays": [], "exc": str(rng.choice(EXCS)),
+          "pad_edges": bool(rng.random() < 0.7), "pad_fourier": bool(rng.random() < 0.7), "memmap": bool(rng.random() < 0.3)}
+    # the newer dimensions, from a sub-stream of their own
+    r2 = np.random.default_rng([int(rng.integers(0, 2 ** 31)), 16])
+    sc["tfilter"] = bool(r2.random() < 0.25)
+    sc["gfilter"] = bool(r2.random() < 0.25)
+    if sc["tfilter"] and r2.random() < 0.3:
+        sc["pad_template_filter"] = False
+    if mode == "subsets" and r2.random() < 0.2:
+        sc["tsplits"] = {"0": 2}
+    if r2.random() < 0.3:
+        sc["layout"] = str(r2.choice(LAYOUTS))
+    if mode == "subsets" and r2.random() < 0.15:
+        sc["invert"] = True
+    if sc["analyzer"] == "max" and r2.random() < 0.15:
+        sc["analyzer"], sc["memmap"] = "nonshared", False
+        if mode == "scan":
+            sc["jpc"] = int(r2.integers(1, 4))
+    return sc
 
 
 def _points(ctx, sc):
@@ -481,8 +724,9 @@ def _pick_faults(rng, sc, pts, k, dead=0):
     return uniq
 
 
-def _sweep(ctx, rng, nconf, tag):
-    """every single fault position of small sequential configurations"""
+def _sweep(ctx, rng, nconf, tag, small=False):
+    """every single fault position of small sequential configurations (`small`: at most two tiles and two rotations, so
+    that the number of positions - and the time of the quick tier - does not depend on the seed)"""
     n = 0
     for i in range(nconf):
         sc = _base(rng)
@@ -491,6 +735,16 @@ def _sweep(ctx, rng, nconf, tag):
             sc["mode"], sc["splits"] = "subsets", {"0": 2}
         sc["analyzer"] = ANALYZERS[i % 3] if i % 4 else "max"
         sc["score"] = SCORES[(i * 3 + int(rng.integers(0, 2))) % len(SCORES)]
+        sc["tfilter"], sc["gfilter"] = (i % 4 == 1), (i % 4 in (1, 3))
+        sc.pop("tsplits", None)
+        if i % 5 == 2:
+            # the tiles come from a split of the template
+            sc.update(mode="subsets", splits=({} if small else sc["splits"]), tsplits={"0": 2})
+        if small:
+            sc["nrot"] = 1 + (i + int(rng.integers(0, 2))) % 2
+            if sc["mode"] == "subsets" and _ntiles(sc) > 2:
+                sc["splits"] = {"0": 2}
+            sc["layout"] = LAYOUTS[(3 * i + int(rng.integers(0, 3))) % len(LAYOUTS)]
         pts = _points(ctx, sc)
         check(ctx, dict(sc), tag)
         for p in pts:
@@ -500,21 +754,75 @@ def _sweep(ctx, rng, nconf, tag):
 
 
 def _exc_matrix(ctx, rng, tag, nconf):
-    """every program-point kind x every kind of exception (what is raised must not decide whether the search fails)"""
-    kinds = list(dict.fromkeys(EXCS))
+    """every program-point kind x every kind of exception (what is raised must not decide whether the search fails).
+    Quick: the full product for the usual kinds and the chameleons (pv.c16_hooks: a few classes that together are instances
+    of every built-in exception class) on tile 0 (+ first / last allocation, both filters), a rotating share for the second
+    tile's positions; thorough: every built-in class by itself as well, on both tiles."""
+    _setup()
+    main = list(dict.fromkeys(EXCS + EXCS_SEQ + sorted(_H.CHAMELEONS)))
+    rare = _rare_kinds()
     for c in range(nconf):
         sc = _base(rng)
-        sc.update(mode="subsets", splits={"0": 2}, nrot=2, analyzer=["max", "peak"][c % 2], memmap=False)
+        sc.update(mode="subsets", splits={"0": 2}, nrot=2 if ctx.thorough else 1, analyzer=["max", "peak"][c % 2], memmap=False,
+                  tfilter=True, gfilter=True, tsplits={}, layout="c", invert=False)
+        if not ctx.thorough:
+            sc.update(dim=2, n=20 + c, m=4)
+        sc.pop("pad_template_filter", None)
         pts = _points(ctx, sc)
-        first = {}
+        first, second = {}, {}
         for p in pts:
-            first.setdefault(p[0], p)
+            if p[1] == 0:
+                first.setdefault(p[0], p)
             if p[1] == 1:
-                first.setdefault(p[0] + "@tile1", p)
-        for ph, p in first.items():
-            for k in kinds:
-                check(ctx, dict(sc, faults=[list(p)], exc=k), tag)
-                ctx.count(f"exc-matrix:{p[0]}")
+                second.setdefault(p[0] + "@tile1", p)
+            if p[0] == "filter" and p[2] == 1:
+                first.setdefault("filter:target", p)
+            if p[0] == "alloc" and p[1] == 0:
+                first["alloc:last"] = p       # the last allocation of tile 0's scan (post-processing for score maps)
+        off = int(rng.integers(0, 1000))
+        runs = []
+        for i, (ph, p) in enumerate(first.items()):
+            ks = list(main)
+            if ctx.thorough and c == 0:
+                ks += rare
+            runs += [(p, k) for k in dict.fromkeys(ks)]
+        allk = main + rare
+        for i, (ph, p) in enumerate(second.items()):
+            ks = main if ctx.thorough else [allk[(off + 3 * i + j * 11) % len(allk)] for j in range(2)]
+            runs += [(p, k) for k in dict.fromkeys(ks)]
+        for p, k in runs:
+            check(ctx, dict(sc, faults=[list(p)], exc=k), tag)
+            ctx.count(f"exc-matrix:{p[0]}")
+            ctx.count(f"exc-kind:{k}")
+
+
+def _inputs(ctx, rng, tag, reps):
+    """the caller's arrays in every way a caller can hold them (memory order, views into larger buffers, read-only, other
+    dtypes, memory maps, Density objects) x scan / scan_subsets x the scores that normalise or mask in place: the search
+    succeeds, every byte behind the arrays (whole base buffer, file on disk) is what it was; one fault per layout as well"""
+    inplace = ["FLC", "MCC", "CORR", "FLCSphericalMask", "CAM", "LCC", "CC"]
+    n = 0
+    for r in range(reps):
+        for li, layout in enumerate(LAYOUTS):
+            for mi, mode in enumerate(("scan", "subsets")):
+                sc = _base(rng)
+                sc.update(mode=mode, splits=({} if mode == "scan" else {"0": 2}), tsplits={}, layout=layout,
+                          score=inplace[(li + 3 * mi + r) % (4 if r == 0 else len(inplace))], analyzer=["max", "peak", "max"][(li + mi + r) % 3],
+                          memmap=False, invert=bool(mode == "subsets" and (li + r) % 2 == 0), nrot=int(rng.integers(1, 3)),
+                          tfilter=bool((li + r) % 4 == 1), gfilter=bool((li + mi + r) % 4 == 2), faults=[])
+                if sc["invert"]:
+                    # without padded edges subset_array has nothing to pad (a view would do); single tile every other time
+                    sc["pad_edges"] = bool((li // 2 + r) % 2)
+                    if (li + r) % 4 == 0:
+                        sc["splits"] = {}
+                sc.pop("pad_template_filter", None)
+                sc.pop("jpc", None)
+                check(ctx, dict(sc), tag)
+                n += 1
+                if (li + mi + r) % 2 == 0:
+                    pts = _points(ctx, sc)
+                    check(ctx, dict(sc, faults=_pick_faults(rng, sc, pts, 1)), tag)
+    return n
 
 
 def _random_seq(ctx, rng, count, tag):
@@ -554,11 +862,11 @@ def _parallel(ctx, rng, count, tag):
         delays = []
         for p in sc["faults"]:
             if rng.random() < 0.7:
-                delays.append([p[0], p[1], p[2], round(float(rng.uniform(0.2, 1.5)), 2)])
+                delays.append([p[0], p[1], p[2], round(float(rng.uniform(0.2, 1.2)), 2)])
         for _ in range(int(rng.integers(0, 3))):
             q = pts[int(rng.integers(0, len(pts)))]
             if q[0] not in ("subset", "outerMerge"):
-                delays.append([q[0], q[1], q[2], round(float(rng.uniform(0.2, 2.0)), 2)])
+                delays.append([q[0], q[1], q[2], round(float(rng.uniform(0.2, 1.5)), 2)])
         sc["delays"] = delays
         check_parallel(ctx, sc, tag)
 
@@ -646,6 +954,19 @@ def _designed_complete(ctx, tag):
             "exc": "PvFault", "pad_edges": True, "pad_fourier": True}
     check_parallel(ctx, dict(base, mode="scan", nrot=3, splits={}, sched=[1, 2]), tag)
     check_parallel(ctx, dict(base, mode="subsets", nrot=2, splits={"0": 2}, sched=[2, 1]), tag)
+    # a user analyzer that is not shared: one instance per jobs_per_callback_class jobs (3 jobs, 1 instance; 2 rotations
+    # over 3 jobs: the first two chunks are empty), filters on, Fortran-ordered caller arrays
+    ns = dict(base, mode="scan", analyzer="nonshared", nrot=2, splits={}, sched=[1, 3], jpc=2, tfilter=True, gfilter=True,
+              layout="f")
+    check_parallel(ctx, ns, tag)
+    # ... and its last post-processing allocation cannot be created (job 2 of 3): the search fails, nothing stays
+    pts = _points(ctx, ns)
+    last_alloc = [p for p in pts if p[0] == "alloc"][-1]
+    check_parallel(ctx, dict(ns, faults=[list(last_alloc)], exc="OSError"), tag)
+    # more outer jobs than tiles, the tiles coming from a split of the template alone (2 tiles on 3 workers), a failing
+    # target filter in the second tile (gpu_index = 1: a device other than the first), raised without arguments
+    tt = dict(base, mode="subsets", nrot=2, splits={}, tsplits={"0": 2}, sched=[3, 1], gfilter=True, m=6)
+    check_parallel(ctx, dict(tt, faults=[["filter", 1, 1]], exc="PvNoArgs"), tag)
 
 
 def _special(ctx, rng, tag, n_amb):
@@ -653,8 +974,12 @@ def _special(ctx, rng, tag, n_amb):
     for i in range(n_amb):
         sc = _base(rng)
         sc["ambient"] = True
-        if i % 3 == 2:
-            pts = _points(ctx, sc)
+        if i % 2 == 1:
+            # a fault inside a tile's scan while the caller is handling another exception, both entry points
+            sc["mode"] = ["subsets", "scan"][(i // 2) % 2]
+            sc["splits"] = ({"0": 2} if sc["mode"] == "subsets" else {})
+            sc.pop("tsplits", None)
+            pts = [p for p in _points(ctx, sc) if p[0] not in ("subset", "outerMerge")]
             sc["faults"] = _pick_faults(rng, sc, pts, 1)
         check(ctx, sc, tag)
     for sched in ([0, 1], [1, 0]):
@@ -685,6 +1010,13 @@ def _obligations(ctx):
     md = MatchingData(a, b, rotations=np.eye(2, dtype=np.float32)[None])
     md.to_backend()
     ctx.obligation("to_backend copies (Cfg.copies)", not np.shares_memory(md._target, a) and not np.shares_memory(md._template, b))
+    from tme.density import Density
+    da, db = Density(a.copy()), Density(b.copy())
+    mdd = MatchingData(da, db, template_mask=Density(b.copy()), rotations=np.eye(2, dtype=np.float32)[None])
+    mdd.to_backend()
+    ctx.obligation("to_backend copies the arrays of Density objects too",
+                   all(isinstance(getattr(mdd, k), np.ndarray) for k in ("_target", "_template", "_template_mask"))
+                   and not np.shares_memory(mdd._target, da.data) and not np.shares_memory(mdd._template, db.data))
     sub = MatchingData(a, b, rotations=np.eye(2, dtype=np.float32)[None]).subset_by_slice()
     ctx.obligation("subset_by_slice copies", not np.shares_memory(sub._target, a) and not np.shares_memory(sub._template, b))
     ctx.obligation("analyzers are 'shared' (Cfg.shared): one instance per job",
@@ -729,22 +1061,50 @@ class _Quiet:
 
 def run(ctx):
     with _Quiet():
-        _run(ctx)
+        try:
+            _run(ctx)
+        except _Abort as e:
+            ctx.note(f"stopped early: {e}")
+
+
+def _canary(ctx, tag):
+    """first of all: plain fault-free `scan` calls whose result is inspected without being read (see _result_backing)"""
+    base = {"mode": "scan", "score": "FLCSphericalMask", "dim": 2, "n": 24, "m": 5, "dseed": 3, "nrot": 2, "splits": {}, "sched": [1, 1],
+            "faults": [], "delays": [], "exc": "PvFault", "pad_edges": True, "pad_fourier": True}
+    for an, extra in (("max", {}), ("max", {"memmap": True}), ("peak", {}), ("nonshared", {"jpc": 2})):
+        check(ctx, dict(base, analyzer=an, **extra), tag)
+    # minimised inputs of past findings
+    import glob
+    from pv import env
+    for fn in sorted(glob.glob(os.path.join(env.VERIF, "corpus", "C16_*.json"))):
+        with open(fn) as f:
+            rec = json.load(f)
+        sc = rec.get("input")
+        if isinstance(sc, dict) and "mode" in sc and _sequential(sc):
+            check(ctx, dict(sc), "corpus")
 
 
 def _run(ctx):
     _obligations(ctx)
     rng = ctx.rng("main")
+    times = []
+
+    def timed(name, fn, *a):
+        t0 = time.time()
+        fn(*a)
+        times.append(f"{name} {time.time() - t0:.1f}s")
     t0 = time.time()
-    _sweep(ctx, rng, ctx.budget(4, 30), "sweep")
-    _exc_matrix(ctx, rng, "excmatrix", ctx.budget(1, 4))
-    _random_seq(ctx, rng, ctx.budget(50, 900), "rand")
-    _special(ctx, rng, "special", ctx.budget(4, 20))
+    _canary(ctx, "canary")
+    timed("sweep", _sweep, ctx, rng, ctx.budget(4, 12), "sweep", not ctx.thorough)
+    timed("exc-matrix", _exc_matrix, ctx, rng, "excmatrix", ctx.budget(1, 2))
+    timed("random", _random_seq, ctx, rng, ctx.budget(50, 500), "rand")
+    timed("inputs", _inputs, ctx, ctx.rng("inputs"), "inputs", ctx.budget(1, 6))
+    timed("special", _special, ctx, rng, "special", ctx.budget(4, 20))
     t1 = time.time()
-    _designed_complete(ctx, "par")
-    _designed_known(ctx, "par")
-    _parallel(ctx, ctx.rng("parallel"), ctx.budget(5, 70), "par")
-    ctx.note(f"sequential stream {t1 - t0:.1f}s, multi-process stream {time.time() - t1:.1f}s")
+    timed("designed-complete", _designed_complete, ctx, "par")
+    timed("designed-known", _designed_known, ctx, "par")
+    timed("parallel", _parallel, ctx, ctx.rng("parallel"), ctx.budget(4, 35), "par")
+    ctx.note(f"sequential stream {t1 - t0:.1f}s, multi-process stream {time.time() - t1:.1f}s ({', '.join(times)})")
 
 
 def search(ctx):
@@ -753,15 +1113,24 @@ def search(ctx):
     rng = ctx.rng("search")
     with _Quiet():
         _setup()
-        _sweep(ctx, rng, 10, "search")
-        _random_seq(ctx, rng, 150, "search")
-        _special(ctx, rng, "search", 3)
-        # fault-free searches whose rotations do not divide evenly over the jobs (real inner pools)
-        for R, n in ((3, 2), (5, 3), (2, 3), (1, 2), (4, 3)):
-            sc = _base(rng)
-            sc.update(mode="scan", analyzer="max", nrot=R, sched=[1, n], splits={})
-            check_parallel(ctx, sc, "search")
-        _parallel(ctx, rng, 10, "search")
+        try:
+            _search(ctx, rng)
+        except _Abort as e:
+            ctx.note(f"search stopped early: {e}")
+
+
+def _search(ctx, rng):
+    _canary(ctx, "search")
+    _sweep(ctx, rng, 10, "search")
+    _inputs(ctx, rng, "search", 2)
+    _random_seq(ctx, rng, 150, "search")
+    _special(ctx, rng, "search", 3)
+    # fault-free searches whose rotations do not divide evenly over the jobs (real inner pools)
+    for R, n in ((3, 2), (5, 3), (2, 3), (1, 2), (4, 3)):
+        sc = _base(rng)
+        sc.update(mode="scan", analyzer="max", nrot=R, sched=[1, n], splits={}, exc="PvFault")
+        check_parallel(ctx, sc, "search")
+    _parallel(ctx, rng, 10, "search")
 
 
 def replay(ctx, rec):
@@ -772,7 +1141,10 @@ def replay(ctx, rec):
         return run(ctx)
     with _Quiet():
         _setup()
-        if sc["sched"][0] > 1 or sc["sched"][1] > 1:
-            check_parallel(ctx, sc, "replay")
-        else:
-            check(ctx, sc, "replay")
+        try:
+            if sc["sched"][0] > 1 or sc["sched"][1] > 1:
+                check_parallel(ctx, sc, "replay")
+            else:
+                check(ctx, sc, "replay")
+        except _Abort:
+            pass
